@@ -126,7 +126,7 @@ def gen_world(rng, P, name):
         w.members.append(W.Member(fam=1, scn=tm))
         w.clones = [(a, b, "deepcopy", k) for (a, b, _m, k) in w.clones]
         w.twin_member = len(w.members) - 1
-    if scn.listener_kind in ("hooks", "singleton") and any(c[2] == "pickle" for c in w.clones):
+    if scn.listener_kind in ("hooks", "shared", "singleton") and any(c[2] == "pickle" for c in w.clones):
         # plain functions stored as instance attributes are not picklable (not a property of the library)
         w.clones = [(a, b, "deepcopy", k) for (a, b, _m, k) in w.clones]
     # behaviour tables must agree on the common prefix: all members share the original's table
